@@ -147,7 +147,7 @@ func foldV(rv reflect.Value, depth int) (model.V, error) {
 		if err := checkSupported(t, map[reflect.Type]bool{}); err != nil {
 			return model.V{}, err
 		}
-		out := model.V{K: model.VObj, O: []model.Member{}}
+		out := model.V{K: model.VObj, O: []model.Member{}, Struct: true}
 		if err := foldFields(rv, &out, depth); err != nil {
 			return model.V{}, err
 		}
